@@ -171,5 +171,9 @@ func run(repo string) (string, error) {
 	s += fmt.Sprintf("def tblsIndexBytes : Nat := %d\n", width)
 	s += fmt.Sprintf("def tblsIndexBigEndian : Bool := %v\n", order16 == "BigEndian")
 	s += "end Dos.Gen\n"
-	return s, nil
+	sh, err := shapes(repo)
+	if err != nil {
+		return "", err
+	}
+	return s + sh, nil
 }
